@@ -181,7 +181,8 @@ public:
             entries = 1u << this->_info._bits_per_pixel;
         }
 
-        _palette.resize( entries, rgba8_pixel_t(0, 0, 0, 0));
+        // palette colours are opaque (the fourth byte of an entry is reserved, not alpha)
+        _palette.resize( entries, rgba8_pixel_t(0, 0, 0, 255));
 
 		for( int i = 0; i < entries; ++i )
         {
